@@ -111,6 +111,11 @@ type Transaction struct {
 	mu            sync.Mutex
 	manager       *Manager
 	failed        atomic.Bool
+	// Set by Commit, guarded by mu. A goroutine of the operation may still call
+	// With after the transaction has been committed or aborted, for example if
+	// the operation returned on the first error of a pipeline. It must not take
+	// a write lock then because nobody is left to release it.
+	done bool
 }
 
 func (m *Manager) NewTransaction() *Transaction {
@@ -189,6 +194,10 @@ func (t *Transaction) With(name string, readOnly bool, createFn func() (Cachable
 			 * of bbolt (recall bbolt only allows one read-write transaction at a
 			 * time) which is absolutely fine for a search heavy workload. */
 			t.mu.Lock()
+			if t.done {
+				t.mu.Unlock()
+				return fmt.Errorf("transaction has already finished")
+			}
 			/* Have we locked this cache before? Within a transaction we hold
 			 * onto writes until we know the transaction is committed. This is
 			 * to ensure other readers or writers do not see partial results.
@@ -240,6 +249,15 @@ func (t *Transaction) With(name string, readOnly bool, createFn func() (Cachable
 		}
 		return nil
 	}
+	if !readOnly {
+		t.mu.Lock()
+		done := t.done
+		t.mu.Unlock()
+		if done {
+			t.manager.mu.Unlock()
+			return fmt.Errorf("transaction has already finished")
+		}
+	}
 	log.Debug().Str("name", name).Bool("readOnly", readOnly).Msg("Creating new cache")
 	freshCachable, err := createFn()
 	if err != nil {
@@ -263,6 +281,15 @@ func (t *Transaction) With(name string, readOnly bool, createFn func() (Cachable
 		// The following shared cache lock is released when the transaction is done.
 		s.mu.Lock()
 		t.mu.Lock()
+		if t.done {
+			// Committed in the meantime, nobody will release the lock or scrap
+			// the cache for us
+			t.mu.Unlock()
+			s.mu.Unlock()
+			delete(t.manager.sharedCaches, name)
+			t.manager.mu.Unlock()
+			return fmt.Errorf("transaction has already finished")
+		}
 		t.writtenCaches[name] = s
 		t.mu.Unlock()
 		// defer s.mu.Unlock()
@@ -283,15 +310,20 @@ func (t *Transaction) With(name string, readOnly bool, createFn func() (Cachable
 
 // Releases all the locks on the caches. Must be called after the transaction.
 func (t *Transaction) Commit(fail bool) {
+	// Once done is set no more caches are added to the written caches, so we
+	// can let go of the transaction lock before taking the manager lock. With
+	// takes them in the opposite order.
 	t.mu.Lock()
-	defer t.mu.Unlock()
-	if len(t.writtenCaches) == 0 {
+	t.done = true
+	writtenCaches := t.writtenCaches
+	t.mu.Unlock()
+	if len(writtenCaches) == 0 {
 		return
 	}
 	t.manager.mu.Lock()
 	defer t.manager.mu.Unlock()
 	failed := t.failed.Load() || fail
-	for name, s := range t.writtenCaches {
+	for name, s := range writtenCaches {
 		if failed {
 			s.scrapped = true
 			delete(t.manager.sharedCaches, name)
